@@ -463,6 +463,7 @@ func main() {
 		res.Traces += st.Executions
 		res.Transitions += st.Transitions
 		res.States += st.States
+		res.Counters["state_keys_seen_beyond_the_kept_set"] += st.StatesBeyondCap
 		res.Counters["sleep_blocked"] += st.SleepBlocked
 		for k, v := range st.Notes {
 			res.Counters["note."+k] += v
